@@ -78,3 +78,8 @@ add("C04","exploration",
  "Held on the follows counted in the evidence (chunkers x sizes x queue regimes; drops actually provoked in regime b are counted).",
  "Trusted: /proc fdinfo offsets; regime a = queue can never be full; regime b without filter; append-only writers.",
  "DESIGN.md §2 C04")
+add("C15","fault_enumeration",
+ "runtime monitoring with fault injection: kill points of the real dmap are enumerated (every out.* hook event of a reference run is re-run with SIGKILL delivered exactly there; under strace SIGKILL is injected at the N-th syscall touching the four paths and the position hit is read back), after each kill the on-disk state is judged; a watcher re-reads the outfile continuously during un-killed runs",
+ "All listed hook kill points of the quick scenarios are hit (counts in the evidence); syscall-level positions are enumerated for the small scenarios and listed as hit / not hit.",
+ "Trusted: strace's path filter and injection; hook call sites out.* (strace tier is hook-free); a kill inside one write(2) is not separately reachable.",
+ "DESIGN.md §2 C15")
